@@ -126,3 +126,91 @@ def prove_sdp(which, replay, tag, tier):
     for rel in seen:
         functions.append(src_of(rel).info(PUBLIC[which]))
     return dict(records=records, functions=functions, instances=len(reach), planted=planted, selfchecks=sc, axioms=AXIOM_TEXT)
+
+
+CVX_MUTS = [
+    ("hedge.max_primal", 1, "np.identity(2**self._num_reps), x_var >> 0]", "np.identity(2**self._num_reps)]"),
+    ("hedge.max_dual", 2, "constraints = [self._pperm @ kron_var @ self._pperm.conj().T >> self._q_a]", "constraints = [self._pperm @ kron_var @ self._pperm.conj().T << self._q_a]"),
+    ("clone.dual", 1, "cvxpy.kron(cvxpy.kron(np.eye(2**num_reps), np.eye(2**num_reps)), y_var)", "cvxpy.kron(y_var, cvxpy.kron(np.eye(2**num_reps), np.eye(2**num_reps)))"),
+    ("clone.primal", 2, "sys = [elem for elem in sys if elem % num_spaces != 0]", "sys = [elem for elem in sys if elem % num_spaces == 0]"),
+    ("hedge.min_primal", 1, "objective = cvxpy.Minimize(cvxpy.real(cvxpy.trace(self._q_a.conj().T @ x_var)))", "objective = cvxpy.Maximize(cvxpy.real(cvxpy.trace(self._q_a.conj().T @ x_var)))"),
+    ("clone.primal", 1, "partial_trace(x_var, sys, dim) == np.identity(2**num_reps)", "partial_trace(x_var, sys, dim) << np.identity(2**num_reps)"),
+    ("hedge.min_dual", 1, "constraints = [u_var << self._q_a]", "constraints = [u_var >> self._q_a]"),
+]
+
+
+def prove_cvx(replay, tag, tier):
+    """QuantumHedging's four programs and optimal_clone's primal / dual program for 1 and 2 repetitions (3 thorough)"""
+    from contracts.sdp_c import SdpContract, cvx_specs
+    from vt import extract
+    from vt.pyvc.progvc import AXIOM_TEXT, ProgEngine
+
+    reps = (1, 2, 3) if tier == "thorough" else (1, 2)
+    srcs = {}
+
+    def src_of(rel):
+        if rel not in srcs:
+            srcs[rel] = extract.Source(rel)
+        return srcs[rel]
+
+    def run(n, only=None, override=None):
+        out = []
+        for key, (rel, fn, params, req, spec, text) in cvx_specs(n).items():
+            if only and key != only:
+                continue
+            s = override if override is not None else src_of(rel)
+            e = ProgEngine(s.function(fn), SdpContract(params, req, spec, text), fn, "%s, %d repetition(s), all operators" % (key, n), timeout_ms=4000 if override is None else 1200)
+            out += e.run()
+        return out
+
+    from vt.pyvc.progvc import InitContract
+
+    def run_init(n, override=None):
+        s = override if override is not None else src_of("toqito/nonlocal_games/quantum_hedging.py")
+        want = lambda e, n=n: {"_q_a": e["q_a"], "_num_reps": n, "_sys": list(range(0, 2 * n - 1, 2)), "_dim": [2] * (2 * n)}  # noqa: E731
+        e = ProgEngine(s.function("QuantumHedging.__init__"), InitContract([("q_a", "arr"), ("num_reps", n)], want, "QuantumHedging(q_a, %d)" % n), "QuantumHedging.__init__", "%d repetition(s)" % n)
+        return e.run()
+
+    records = []
+    for n in reps:
+        records += run(n)
+        records += run_init(n)
+    for i, x in enumerate(records):
+        x["_id"] = "%s.%d" % (tag, i)
+        x["clean"] = False
+        if x["status"] != "discharged":
+            x["replay"] = [c for c in replay if (("hedge" in c.get("clause", "")) == ("Hedging" in x["function"]))][:60] or list(replay)[:60]
+    planted = {"tried": 0, "refuted": 0, "survivors": [], "anchors_missing": [], "detail": []}
+    for key, n, old, new in (CVX_MUTS if tier == "thorough" else CVX_MUTS[:3]):
+        rel = cvx_specs(n)[key][0]
+        try:
+            m = src_of(rel).mutated(old, new)
+        except KeyError:
+            planted["anchors_missing"].append("%s: %s" % (key, old[:40]))
+            continue
+        bad = [x for x in run(n, only=key, override=m) if x["status"] != "discharged"]
+        planted["tried"] += 1
+        if bad:
+            planted["refuted"] += 1
+            planted["detail"].append({"mutant": "%s: %s -> %s" % (key, old[:50], new[:50]), "not_discharged": len(bad), "first": "%s [%s]" % (bad[0]["text"][:90], bad[0]["status"])})
+        else:
+            planted["survivors"].append("%s: %s" % (key, old[:50]))
+    try:
+        m = src_of("toqito/nonlocal_games/quantum_hedging.py").mutated("self._sys = list(range(0, 2 * self._num_reps - 1, 2))", "self._sys = list(range(1, 2 * self._num_reps, 2))")
+        bad = [x for x in run_init(2, override=m) if x["status"] != "discharged"]
+        planted["tried"] += 1
+        if bad:
+            planted["refuted"] += 1
+        else:
+            planted["survivors"].append("QuantumHedging.__init__: _sys")
+    except KeyError:
+        planted["anchors_missing"].append("QuantumHedging.__init__: self._sys = ...")
+    claims = sum(1 for x in records if x.get("claim"))
+    reach = [x for x in records if x["kind"] == "reachability"]
+    sc = {
+        "nonzero_claim_obligations": {"ok": claims > 0, "detail": {"cvxpy builders": claims}},
+        "preconditions_satisfiable": {"ok": bool(reach) and all(x["status"] == "discharged" for x in reach), "detail": {"instances": len(reach)}},
+        "planted_bugs_all_refuted": {"ok": planted["tried"] == planted["refuted"] and not planted["anchors_missing"], "detail": planted},
+    }
+    functions = [src_of(v[0]).info(v[1]) for v in cvx_specs(1).values()] + [src_of("toqito/nonlocal_games/quantum_hedging.py").info("QuantumHedging.__init__")]
+    return dict(records=records, functions=functions, instances=len(reach), planted=planted, selfchecks=sc, axioms=AXIOM_TEXT)
